@@ -89,7 +89,7 @@ CLAIMS['C03'] = dict(
     technique='CBMC dfcc contracts + generated safety checks on lowered read-side bodies', design_ref='6/C03, 12.4')
 CLAIMS['C14'] = dict(
     text="Protocol-conformance proof under the zlib/liblzma manuals (A10), for chunks of any size < 2^50: write() offers every input byte to the compressor exactly once (in slices of at most 512 KiB, which bounds the scratch buffer and keeps zlib's 32-bit counters exact), every byte the compressor produced is forwarded to the inner writer exactly once from the start of the scratch buffer, close()/destruction finish the stream (FINISH until STREAM_END, then release) only if one is open, rotate_output rotates the inner writer only with a finished, fully forwarded stream and opens one new stream (gzip and xz: write step, write, close, rotate_output, destructor).",
-    note=COMMON_NOTE + 'Decompress(output) == input rests on zlib/liblzma themselves; progress/termination of the compressor assumed; file-name suffixes not checked.',
+    note=COMMON_NOTE + 'Decompress(output) == input rests on zlib/liblzma themselves; progress/termination of the compressor assumed; the characters of <name> are not modelled (names are uninterpreted concatenations).',
     technique='CBMC dfcc function + loop contracts against ghost models of deflate / lzma_code and the inner writer', design_ref='6/C14, 12.2')
 CLAIMS['C15'] = dict(
     text="Ordering automaton over ofstream/rename events with nondeterministic failures: Writer<std::string>::close, rotate_output (real close/open bodies) and destructor rename '.part' to the final name only after flush and close of the stream, exactly once per closed file, never when no file is open; CdnsEncoder::rotate_output/~CdnsEncoder hand every produced byte to the sink first (incl. the closing break: enc.write_break, exp.dtor, exp.rotate_output.*); compressor destructors/close finish and forward the trailer before the inner writer is touched.",
@@ -97,7 +97,7 @@ CLAIMS['C15'] = dict(
     technique='CBMC dfcc contract on the lowered template specialisation against a ghost event automaton', design_ref='6/C15, 12.2')
 CLAIMS['C16'] = dict(
     text="Writer<int>::write returns normally iff the OS accepted every byte (short or failed ::write raises); CdnsEncoder::rotate_output propagates a rejected flush, does not rotate then and keeps the buffered bytes; on an output failure write_block() leaves the buffered records untouched and rotate_output to a healthy output re-establishes the exporter invariant (exp.* units with a failing sink). 'rotate_output never returns normally for an output that lost bytes' is checked on the compressing writers and on the named-file writer and is a KNOWN FINDING for both (close() swallows; the stream failbit is never looked at).",
-    note=COMMON_NOTE + 'Known findings F9/F11 are listed in known_findings.txt with native replays.',
+    note=COMMON_NOTE + 'Known findings F9/F11/F13 (three for C16) are listed in known_findings.txt with native replays.',
     technique='CBMC dfcc contracts with nondeterministic OS/sink failures (fault = nondeterminism)', design_ref='6/C16, 12.2')
 CLAIMS['C20'] = dict(category='other',
     text="First clause only ('keeps no shared mutable state'): exhaustive scan of clang's AST for every declaration with static storage duration in "
@@ -115,6 +115,14 @@ CLAIMS['C19'] = dict(
     note=COMMON_NOTE + "std::deque/std::unordered_map are models (A7/A8); the copy *constructor* of BlockTable is not instantiated anywhere (blocks copy by assignment) "
          "and defaulted moves rest on std::deque keeping element addresses when moved. A genuine defect was found and fixed (known_findings.txt).",
     technique="CBMC dfcc contracts on the lowered real template instantiations of BlockTable<T> (function + loop contracts) and on CdnsBlock/CdnsBlockRead::operator=", design_ref="8, 12.6")
+CLAIMS['C12']['text'] += " The counters the API reports are under contract too: CdnsBlock::get_item_count/get_qr_count/get_aec_count/get_mm_count/full/set_block_parameters and the exporter's get_block_*_count / get_blocks_written_count (proved against the block getters' contracts)."
+CLAIMS['C13']['text'] += ' Writer<T>::rotate_output for a value of the other kind (file name <-> descriptor): a normal return must mean the current output was closed (out.file.rotate_output.c13, out.fd.rotate_output.c13: two known findings, the value is silently ignored). Named-file writer: write/open/constructor (out.file.*).'
+CLAIMS['C13']['note'] += ' Claimed under the documented precondition of add_block_parameters (a parameter set added after the header of the current output was written is used only after a rotation). Known findings: rotation to the other kind of output (known_findings.txt, replay_c13x.cpp).'
+CLAIMS['C14']['text'] += " Format and suffix: deflateInit2 is asked for the gzip wrapper (windowBits 16+9..15) with arguments in the manual's ranges, lzma_easy_encoder for a valid preset and .xz integrity check; the constructors of both compressing writers create exactly one inner writer for the given name/descriptor with the suffix '.gz' / '.xz' and open the stream; CdnsEncoder's constructor creates the writer class the requested compression names (enc.ctor.*); the named-file writer opens (<name> + <extension>) + '.part' (out.file.open/.ctor)."
+CLAIMS['C15']['text'] += " Also: Writer<std::string>::write sends every byte to the stream open on the .part file; open/constructor create the .part file empty (open mode without app/in) under (<name>+<extension>)+'.part'; the compressing writers' rotate_output finish the compressed stream before the inner file is renamed. Known finding: a stream that has rejected bytes is still renamed (out.file.close.c15)."
+CLAIMS['C16']['text'] += ' Recovery clause stated separately (enc.rotate_output.fd.recover): rotation to an output that can be opened must succeed whatever the old output does - known finding (the stale staging buffer is flushed to the old output first).'
+CLAIMS['C05']['text'] += " CdnsReader's constructor reads the file header unconditionally and lets every decoder error propagate (rdr.ctor)."
+CLAIMS['C11']['text'] += ' IndexListItem: vector equality / data() as content identity (bt.eqhash.IndexListItem).'
 NA.update({
  'C18': "property of five main() bodies (getopt, iostream, several files): no function-level contract within reach states it (DESIGN section 8)",
 })
